@@ -118,3 +118,122 @@ def SheetDecl.Ok (s : SheetDecl) : Prop :=
 def SheetDecl.part (s : SheetDecl) : SheetPart := ⟨s.name, s.path, some s.events⟩
 
 end Geometry
+
+namespace Geometry
+
+/-! ### table parts and sheet relationship parts -/
+
+/-- the five attribute names the `table` loop reacts to -/
+def tableKeys : List (List Char) := [nDisplayName, nRef, nHeaderRowCount, nInsertRow, nTotalsRowCount]
+
+/-- text of a row count `0 … 9` -/
+def cnt (n : Nat) : Bytes := [UInt8.ofNat (48 + n)]
+
+/-- events the table-part reader does not react to -/
+def Ev.TInert : Ev → Prop
+  | .start n _ => localName n ≠ nTable ∧ localName n ≠ nTableColumn
+  | .end_ n => localName n ≠ nTable
+  | _ => True
+
+/-- a table as its part declares it. `hdr`/`tot` = `none`: the attribute is omitted (schema defaults 1 / 0).
+    `extra`: attributes written before `displayName` (`xmlns`, `id`, `name`, …), `inner`: child events before
+    the columns (`autoFilter` with its own `ref`, …), `gap`: events after every column, `tail`: events
+    between the last column and `</table>` (`</tableColumns>`, `tableStyleInfo`, …) -/
+structure TableDecl where
+  pre : List Char := []
+  name : Bytes
+  rect : Rect
+  hdr : Option Nat := none
+  tot : Option Nat := none
+  cols : List Bytes
+  extra : List (List Char × Bytes) := []
+  colExtra : List (List Char × Bytes) := []
+  inner : List Ev := []
+  gap : List Ev := []
+  tail : List Ev := []
+
+def TableDecl.attrs (t : TableDecl) : List (List Char × Bytes) :=
+  t.extra ++ (nDisplayName, t.name) :: (nRef, renderRef2 t.rect) ::
+    ((match t.hdr with | some h => [(nHeaderRowCount, cnt h)] | none => []) ++
+     (match t.tot with | some n => [(nTotalsRowCount, cnt n)] | none => []))
+
+def renderColumn (t : TableDecl) (c : Bytes) : List Ev :=
+  .start (qn t.pre nTableColumn) (t.colExtra ++ [(nName, c)]) :: .end_ (qn t.pre nTableColumn) :: t.gap
+
+def renderTablePart (t : TableDecl) : List Ev :=
+  .start (qn t.pre nTable) t.attrs :: (t.inner ++ (t.cols.flatMap (renderColumn t) ++ (t.tail ++ [.end_ (qn t.pre nTable)])))
+
+def TableDecl.Ok (t : TableDecl) : Prop :=
+  (∀ c ∈ t.pre, c ≠ ':') ∧ t.rect.Valid ∧ (∀ a ∈ t.extra, a.1 ∉ tableKeys) ∧ (∀ a ∈ t.colExtra, a.1 ≠ nName) ∧
+  (∀ e ∈ t.inner, e.TInert) ∧ (∀ e ∈ t.gap, e.TInert) ∧ (∀ e ∈ t.tail, e.TInert) ∧
+  (∀ h, t.hdr = some h → h ≤ 1) ∧ (∀ n, t.tot = some n → n ≤ 1 ∧ n ≤ t.rect.er)
+
+/-- header / totals row counts the declaration means -/
+def TableDecl.h (t : TableDecl) : Nat := t.hdr.getD 1
+def TableDecl.t (t : TableDecl) : Nat := t.tot.getD 0
+
+/-- the declared data rectangle: the reference minus header rows at the top and totals rows at the bottom -/
+def TableDecl.dataRect (t : TableDecl) : Rect := ⟨t.rect.sr + t.h, t.rect.sc, t.rect.er - t.t, t.rect.ec⟩
+
+/-- a relationship of a sheet `.rels` part -/
+structure RelDecl where
+  typ : Bytes
+  target : Bytes
+  /-- attributes before (`Id`, …) the two, none named `Target` or `Type` -/
+  extra : List (List Char × Bytes) := []
+  /-- `Type` written before `Target` -/
+  typeFirst : Bool := false
+
+def RelDecl.attrs (r : RelDecl) : List (List Char × Bytes) :=
+  r.extra ++ (if r.typeFirst then [(nType, r.typ), (nTarget, r.target)] else [(nTarget, r.target), (nType, r.typ)])
+
+def renderRel (r : RelDecl) : List Ev := [.start nRelationship r.attrs, .end_ nRelationship]
+
+def renderSheetRels (rootAttrs : List (List Char × Bytes)) (rs : List RelDecl) : List Ev :=
+  .start nRelationships rootAttrs :: (rs.flatMap renderRel ++ [.end_ nRelationships])
+
+def RelDecl.Ok (r : RelDecl) : Prop := ∀ a ∈ r.extra, a.1 ≠ nTarget ∧ a.1 ≠ nType
+
+/-- where a relationship target points, for a sheet part in folder `root/dir` (`dir` without `/`):
+    `../p` ↦ `root/p`, `/p` ↦ `p` (absolute part name), the empty target ↦ nothing, else the text itself -/
+def resolveTarget (root target : Bytes) : Option Bytes :=
+  if target.take 3 = [46, 46, 47] then some (root ++ target.drop 2)
+  else if target = [] then none
+  else if target.take 1 = [47] then some (target.drop 1)
+  else some target
+
+end Geometry
+
+namespace Geometry
+
+/-- the tables of one sheet as the package declares them: the sheet part `root/dir/file` (e.g.
+    `xl/worksheets/sheet1.xml`), its relationship part (absent: `rels = none`) and, for every table
+    relationship in document order, the archive entry it resolves to with the table declared there -/
+structure SheetTablesDecl where
+  name : Bytes
+  root : Bytes
+  dir : Bytes
+  file : Bytes
+  rels : Option (List (List Char × Bytes) × List RelDecl) := none
+  tables : List (Bytes × TableDecl) := []
+
+def SheetTablesDecl.path (s : SheetTablesDecl) : Bytes := (s.root ++ 47 :: s.dir) ++ 47 :: s.file
+
+def SheetTablesDecl.relsPath (s : SheetTablesDecl) : Bytes :=
+  (s.root ++ 47 :: s.dir) ++ [47, 95, 114, 101, 108, 115] ++ (47 :: s.file) ++ [46, 114, 101, 108, 115]
+
+/-- consistency of the declaration with the archive `parts` (the zip lookup itself is not modelled) -/
+def SheetTablesDecl.Ok (s : SheetTablesDecl) (parts : List (Bytes × List Ev)) : Prop :=
+  (∀ b ∈ s.dir, b ≠ 47) ∧ (∀ b ∈ s.file, b ≠ 47) ∧
+  (match s.rels with
+   | none => findPart parts s.relsPath = none ∧ s.tables = []
+   | some (ra, rs) =>
+     findPart parts s.relsPath = some (renderSheetRels ra rs) ∧ (∀ r ∈ rs, r.Ok) ∧
+     rs.filterMap (fun r => if r.typ = tableRelType then resolveTarget s.root r.target else none) = s.tables.map (·.1)) ∧
+  ∀ p ∈ s.tables, findPart parts p.1 = some (renderTablePart p.2) ∧ p.2.Ok
+
+/-- what `Xlsx::tables` must hold for this sheet -/
+def SheetTablesDecl.entries (s : SheetTablesDecl) : List TableEntry :=
+  s.tables.map (fun p => ⟨p.2.name, s.name, p.2.cols, p.2.dataRect⟩)
+
+end Geometry
